@@ -638,3 +638,41 @@ Proof.
   destruct m; [|discriminate]. cbn [back_apply]. change translate_back_default_workdir with s_dot.
   apply translate_back_designates_same. exact Hr.
 Qed.
+
+(* ---------- api.amend and its history ---------- *)
+Lemma amend_frames_ok_true : amend_frames_ok = true.
+Proof. reflexivity. Qed.
+
+Lemma str_in_In x l : str_in x l = true -> In x l.
+Proof.
+  unfold str_in. rewrite existsb_exists. intros [y [Hy E]]. apply str_eqb_eq in E. subst. exact Hy.
+Qed.
+
+(* a request is dropped only when an earlier request designates the same file *)
+Lemma amend_drops_only_same_file cwd root here earlier p :
+  wf_root root = true ->
+  amend_dropped cwd (mkenv root here) earlier p = true ->
+  exists p', In p' earlier /\
+    resolve (caller_dir root here s_dot) p' = resolve (caller_dir root here s_dot) p.
+Proof.
+  intros Hr H. unfold amend_dropped, amend_history in H.
+  assert (ER : nodup_frames (frames_of HRead) = [FTranslated]) by reflexivity.
+  assert (EW : nodup_frames (frames_of HWrite) = [FTranslated]) by reflexivity.
+  rewrite ER, EW in H. cbn [existsb flat_map in_frame] in H. rewrite orb_false_r, app_nil_r in H.
+  apply str_in_In in H. apply in_flat_map in H. destruct H as [p' [Hp' [E|[]]]].
+  exists p'. split; [exact Hp'|].
+  change translate_default_workdir with s_dot in E.
+  rewrite <- (translate_designates_same cwd root here s_dot p' Hr).
+  rewrite <- (translate_designates_same cwd root here s_dot p Hr). rewrite E. reflexivity.
+Qed.
+
+(* ... and a repeated request is dropped (the history does its job) *)
+Lemma amend_drops_repeats cwd env earlier p : In p earlier -> amend_dropped cwd env earlier p = true.
+Proof.
+  intros Hin. unfold amend_dropped, amend_history.
+  assert (ER : nodup_frames (frames_of HRead) = [FTranslated]) by reflexivity.
+  assert (EW : nodup_frames (frames_of HWrite) = [FTranslated]) by reflexivity.
+  rewrite ER, EW. cbn [existsb flat_map in_frame]. rewrite orb_false_r, app_nil_r.
+  unfold str_in. apply existsb_exists. exists (translate cwd env p translate_default_workdir).
+  split; [|apply str_eqb_eq; reflexivity]. apply in_flat_map. exists p. split; [exact Hin|now left].
+Qed.
